@@ -452,6 +452,13 @@ class SeqCheck:
         verd_m = run_oracle(m.ORACLE, lines, model)
         proj = getattr(m, "project", project_default)
         ties = [run_oracle(t, lines, impl) for t in getattr(m, "TIE_ORACLES", ())]
+        extras = [run_oracle(t, lines, impl) for t in getattr(m, "EXTRA_ORACLES", ())]     # further statements of the property: a failure is a violation
+        for i in range(len(lines)):
+            if not verd_i[i].startswith("fail"):
+                for t, tv in zip(getattr(m, "EXTRA_ORACLES", ()), extras):
+                    if tv[i].startswith("fail"):
+                        verd_i[i] = "fail (%s)" % t
+                        break
         known = [k for k in load_known() if k.get("property") == pid and k.get("status") == "known"]
         known_ids = set(k["id"] for k in known)
         viol, knownhits, disagree, model_viol = [], {}, [], []
@@ -485,6 +492,9 @@ class SeqCheck:
             oi = run_impl([sl])[0]
             om = run_model([sl])[0]
             vi = run_oracle(m.ORACLE, [sl], [oi])[0]
+            for t in getattr(m, "EXTRA_ORACLES", ()):
+                if not vi.startswith("fail") and run_oracle(t, [sl], [oi])[0].startswith("fail"):
+                    vi = "fail (%s)" % t
             p = write_replay(pid, "violation", {"scenario": sl, "seed": seed, "impl": oi, "model": om, "oracle": vi,
                                                 "original": lines[i], "oracle_name": m.ORACLE})
             log("VIOLATION property=%s replay=%s" % (pid, p))
@@ -556,7 +566,10 @@ class SeqCheck:
             proj = getattr(m, "project", project_default)
             return [proj(parse_obs(a)) != proj(parse_obs(b)) for a, b in zip(impl, model)]
         v = run_oracle(m.ORACLE, lines, impl)
-        return [x.startswith("fail") for x in v]
+        res = [x.startswith("fail") for x in v]
+        for t in getattr(m, "EXTRA_ORACLES", ()):
+            res = [a or b.startswith("fail") for a, b in zip(res, run_oracle(t, lines, impl))]
+        return res
 
     def shrink(self, sc, mode="violation", rounds=6):
         cur = sc
